@@ -76,10 +76,12 @@ type Case struct {
 	CustomFind bool `json:"customFind,omitempty"`
 	// Clash (file-store destination): the names (titles) of these nodes are already
 	// taken in the destination by OTHER content
-	Clash     []int       `json:"clash,omitempty"`
-	UseMount  bool        `json:"useMount,omitempty"`
-	MountFrom []MountSpec `json:"mountFrom,omitempty"`
-	Holds     []HoldSpec  `json:"holds,omitempty"`
+	Clash    []int `json:"clash,omitempty"`
+	UseMount bool  `json:"useMount,omitempty"`
+	// NoOnMounted: MountFrom is set but OnMounted is left nil
+	NoOnMounted bool        `json:"noOnMounted,omitempty"`
+	MountFrom   []MountSpec `json:"mountFrom,omitempty"`
+	Holds       []HoldSpec  `json:"holds,omitempty"`
 }
 
 // MountSpec is MountFrom's answer for one blob node.
@@ -404,8 +406,10 @@ func (e *Env) graphOptions() oras.CopyGraphOptions {
 			}
 			return byDigest[desc.Digest.String()], nil
 		}
-		o.OnMounted = func(ctx context.Context, desc ocispec.Descriptor) error {
-			return e.Rec.Callback(ctx, "OnMounted", desc)
+		if !e.C.NoOnMounted {
+			o.OnMounted = func(ctx context.Context, desc ocispec.Descriptor) error {
+				return e.Rec.Callback(ctx, "OnMounted", desc)
+			}
 		}
 	}
 	return o
